@@ -3,6 +3,7 @@ C13 — fsck reports exactly the damaged objects and pointers and only moves tho
 Property theorems only (obligations of ./check C13).
 -/
 import LfsModel.Fsck
+import LfsModel.FsckScan
 
 namespace C13
 open Fs
@@ -110,5 +111,27 @@ theorem corrupt_is_moved (f : Flags) (hf : f.norm.objects = true) (hd : f.dryRun
 
 /-- non-vacuity -/
 example : (fsck ⟨false, false, false⟩ [⟨1, false, .corrupt⟩, ⟨2, false, .intact⟩, ⟨3, false, .missing⟩, ⟨4, true, .missing⟩] [.canonical 1, .notPointer 9]).moved = [1] := by decide
+
+/-! ### which pointers the object check looks at (the scan behind `refs`) -/
+
+/-- the scan never yields a blob that no path outside lfs.fetchexclude holds -/
+theorem scan_checks_only_needed (excluded : Nat → Bool) (t : List (Nat × Nat)) (b : Nat)
+    (h : b ∈ FsScan.scanned excluded t) : FsScan.needed excluded t b := FsScan.scanned_needed excluded t b h
+
+/-- "every object referenced in the checked revisions …", PARTIAL: shown for trees in which no pointer
+    blob sits on both sides of the exclusion — in particular whenever lfs.fetchexclude is not set -/
+theorem scan_checks_every_needed_partial (excluded : Nat → Bool) (t : List (Nat × Nat))
+    (hsame : ∀ p q b, (p, b) ∈ t → (q, b) ∈ t → excluded p = excluded q)
+    (b : Nat) (h : FsScan.needed excluded t b) : b ∈ FsScan.scanned excluded t :=
+  FsScan.needed_scanned_partial excluded t hsame b h
+
+theorem scan_checks_every_blob_without_exclusion (t : List (Nat × Nat)) (p b : Nat) (h : (p, b) ∈ t) :
+    b ∈ FsScan.scanned (fun _ => false) t :=
+  FsScan.needed_scanned_partial _ t (fun _ _ _ _ _ => rfl) b ⟨p, h, rfl⟩
+
+/-- what is missing from the full statement, with its witness (known finding D49): a copied file -/
+theorem scan_full_statement_fails_d49 :
+    FsScan.needed (fun p => p == 1) [(1, 7), (2, 7)] 7 ∧ 7 ∉ FsScan.scanned (fun p => p == 1) [(1, 7), (2, 7)] :=
+  FsScan.d49_witness
 
 end C13
